@@ -689,7 +689,7 @@ int tls12_do_accept(TLS_CONNECT *conn)
 	const uint8_t *client_exts;
 	size_t client_exts_len;
 	uint8_t server_exts[TLS_MAX_EXTENSIONS_SIZE];
-	size_t server_exts_len;
+	size_t server_exts_len = 0;
 	int curve = TLS_curve_sm2p256v1; // 这个是否应该在conn中设置？		
 
 	// ServerKeyExchange
@@ -770,7 +770,11 @@ int tls12_do_accept(TLS_CONNECT *conn)
 		server_exts_len = 0;
 		curve = TLS_curve_sm2p256v1;
 
-		tls_process_client_hello_exts(client_exts, client_exts_len, server_exts, &server_exts_len, sizeof(server_exts));
+		if (tls_process_client_hello_exts(client_exts, client_exts_len, server_exts, &server_exts_len, sizeof(server_exts)) != 1) {
+			error_print();
+			tls_send_alert(conn, TLS_alert_decode_error);
+			goto end;
+		}
 
 
 
